@@ -318,7 +318,7 @@ class Ctx:
         if len(self.samples) < cap:
             self.samples.append(s)
 
-    def finish(self):
+    def finish(self, write_evidence=True):
         for k in self.known:
             if self.known_hits.get(k["id"]):
                 print("KNOWN-FINDING: property=%s %s (id=%s, %d cases)" % (self.pid, k["what"], k["id"], self.known_hits[k["id"]]))
@@ -346,9 +346,10 @@ class Ctx:
             "wall_s": round(time.time() - self.t0, 2),
             "violations": len(self.viol),
         }
-        os.makedirs(EVID, exist_ok=True)
-        with open(os.path.join(EVID, self.pid + ".json"), "w") as f:
-            json.dump(ev, f, indent=1)
+        if write_evidence:
+            os.makedirs(EVID, exist_ok=True)
+            with open(os.path.join(EVID, self.pid + ".json"), "w") as f:
+                json.dump(ev, f, indent=1)
         shutil.rmtree(self.tmp, ignore_errors=True)
         self.log("done: states=%d transitions=%d traces=%d evaluations=%d violations=%d wall=%.1fs" %
                  (self.states, self.transitions, self.traces, self.evaluations, len(self.viol), ev["wall_s"]))
